@@ -229,10 +229,23 @@ CLAIMED["C02"] = (
     "DESIGN.md sections 7 and 11, C02",
 )
 
+CLAIMED["C07"] = (
+    "exhaustive abstract evaluation of the axis-matching routine against the checker's own shape calculus; abstract interpretation of "
+    "reshape over shaped tokens with a normalising token algebra",
+    "Q1 (exhaustive over its domain): calc_reshape_args is interpreted for EVERY shape with up to 4 (thorough: 5) axes over the sizes "
+    "{1,2,3,4,6} and EVERY target reachable by merging runs of adjacent axes and dropping size-one axes, for the reverse trip with the "
+    "sub-index sizes the forward plan leaves, and for targets with inserted size-one axes; its plan, applied to the shape by the "
+    "checker's own shape calculus, must give the requested shape / restore the original. Q2 (bounded): reshape on arrays of shaped "
+    "tokens (Z2, U1, +Z2Z2; size-one axes of identity and non-identity charge; abelian and fermionic; ~900 array x target cases): "
+    "requested number of axes and none larger than requested, valid result, every original block exactly once among the pieces of "
+    "the result (same multiset of magnitudes, same norm), reshaping back restores indices and blocks (token identity), reshape to "
+    "the current shape is the identity. One genuine violation recorded as a known finding (all-size-one array to the 0-d shape). " + BOUNDED,
+    "Numerical norms are not computed; arrays that already carry a fused axis are covered through the reverse trips only.",
+    "DESIGN.md section 11, C07",
+)
+
 PENDING = "check not built yet (construction in progress; see DESIGN.md section 2 for the planned static rule)"
 NOT_APPLICABLE = {
-    "C07": "reshape content preservation and the axis-matching routine are arithmetic over runtime shapes; no clause is a "
-           "shape-of-the-code fact that static analysis in reach can decide (DESIGN.md section 3)",
     "C12": "purely numerical equality of backend decompositions with dense ones; nothing structural beyond what C11's "
            "partial rules already cover (DESIGN.md section 3)",
 }
